@@ -233,6 +233,8 @@ def rule_x(repo, run):
     from checks import c15
     from sa.report import import_rules
     import_rules(run, R, c15, repo, {"C15.R4"}, only=lambda c: "lua" in c.lower())
+    # ... and a function wrapped for Lua is wrapped: its flag reaches the containers that decide whether a module is written
+    import_rules(run, R, c15, repo, {"C15.R6"}, only=lambda c: c.startswith("ast.WrapFlags.accumulate:lua"))
 
 
 def rule_r5(repo, run):
@@ -515,6 +517,39 @@ def rule_r10(repo, run):
         run.ok(R, "wrapl:state-argument-is-a-field", sample=dict(calls=len(uses)))
 
 
+
+def rule_r11(repo, run):
+    R = run.rule("C18.R11", "a registration table that is written once per class (append_luaL_Reg inside wrap_class) is emptied "
+                            "once per class: the accumulator is reset in wrap_class before the class's functions are wrapped")
+    wl = repo.module("wrapl")
+    wcl = wl.func("Wrapl.wrap_class")
+    written = set()
+    for c in ast.walk(wcl):
+        if isinstance(c, ast.Call) and (pyflow.call_name(c) or "").endswith(".append_luaL_Reg"):
+            for a in c.args:
+                if isinstance(a, ast.Attribute) and pyflow.is_name(a.value, "self"):
+                    # the list argument: an attribute that is appended to somewhere in the module
+                    filled = any(isinstance(x, ast.Call) and any(isinstance(y, ast.Attribute) and y.attr == a.attr and pyflow.is_name(y.value, "self")
+                                                                 for y in x.args)
+                                 and (pyflow.call_name(x) or "").split(".")[-1] in ("append_format", "append")
+                                 for x in ast.walk(wl.tree)) or \
+                        any(isinstance(x, ast.Call) and isinstance(x.func, ast.Attribute) and x.func.attr in ("append", "extend")
+                            and isinstance(x.func.value, ast.Attribute) and x.func.value.attr == a.attr for x in ast.walk(wl.tree))
+                    if filled:
+                        written.add(a.attr)
+    if not written:
+        raise AnalysisError("C18.R11: the per-class registration table of Wrapl.wrap_class was not found")
+    for attr in sorted(written):
+        resets = [a for a in wcl.body if isinstance(a, ast.Assign) and isinstance(a.targets[0], ast.Attribute)
+                  and a.targets[0].attr == attr and isinstance(a.value, ast.List) and not a.value.elts]
+        first_use = min([x.lineno for x in ast.walk(wcl) if isinstance(x, ast.Call)
+                         and (pyflow.call_name(x) or "").split(".")[-1] in ("wrap_function", "wrap_functions", "append_luaL_Reg")] or [0])
+        run.check(R, "wrapl.Wrapl.wrap_class:reset[%s]" % attr, bool(resets) and resets[0].lineno < first_use,
+                  "`self.%s` is written into the registration table of every class and is not emptied at the start of wrap_class: "
+                  "the second class registers the methods (and __gc) of the first as well - `b:name()` runs A's function on a B"
+                  % attr, wl.loc(wcl))
+
+
 def run(repo, run, tier):
     tables.check_model_assumptions(repo)
     types = tables.TypeTable(repo)
@@ -528,3 +563,4 @@ def run(repo, run, tier):
     rule_r8(repo, run, types)
     rule_r9(repo, run)
     rule_r10(repo, run)
+    rule_r11(repo, run)
